@@ -204,6 +204,19 @@ def _family_map_forms():
         yield _fixed(2, pairb, [_SYNB], [[2, 0]], [m])
 
 
+def _family_empty_grouping():
+    """An EMPTY `instruction_ids` for circuits that do contain placeholders (with preset map ids, so nothing else is missing): the grouping lists
+    0 of n placeholders and must be refused, with `map_ids` omitted or empty, in place or not."""
+    rzz = {"kind": "gate", "gate": "rzz", "params": [0.3]}
+    cx = {"kind": "gate", "gate": "cx", "params": []}
+    one = [_g("h", 0), _p2([0, 1], 0), _g("s", 1)]
+    two = [_p2([0, 1], 0), _g("cx", 1, 2), _p1(2, 1, 0, lab="cut_7"), _g("x", 0), _p1(0, 1, 1, lab="cut_7")]
+    for body, bs, ids in ((one, [rzz], [[1]]), (two, [rzz, cx], [[0], [2, 4]])):
+        for mode in ("ids_empty_none", "ids_empty_list"):
+            for inplace in (False, True):
+                yield _fixed(3, body, bs, ids, [1] * len(ids), mode=mode, inplace=inplace)
+
+
 def _family_near_bases():
     """A pair of halves [i, j] must share an equivalent basis: the two halves hold bases that are nearly, but not, the same decomposition
     (to be refused), or equal bases built separately (to be decomposed)."""
@@ -319,6 +332,7 @@ def cases(rng, tier):
     yield from _family_shared_object()
     yield from _family_near_bases()
     yield from _family_map_forms()
+    yield from _family_empty_grouping()
     yield from _family_trivial_ops()
     N = 250 if tier == "quick" else 5000
     for _ in range(N):
@@ -432,6 +446,13 @@ def _materialise(payload):
             for g in d:
                 instrs[g]["basis_id"] = m
         map_ids = []
+    if mode in ("ids_empty_none", "ids_empty_list"):
+        # an EMPTY grouping for a circuit that does contain placeholders (all of them carrying a map id already): zero of n listed -> refused
+        for d, m in zip(ids, map_ids):
+            for g in d:
+                instrs[g]["basis_id"] = m
+        ids = []
+        map_ids = None if mode == "ids_empty_none" else []
     if mode in ("none_preset",):
         for d, m in zip(ids, map_ids):
             for g in d:
